@@ -55,7 +55,7 @@ theorem nothing_after_eof (T : Table) (c : Cfg) (hg : c.guarded = true) (s : Sys
 /-- The facts about the timer and the channel that the model hard-codes are those of the source:
     10 ms delay, the callback resets `ignoreST` with the state, channel capacity 2. -/
 theorem gen_lifecycle_constants :
-    Gen.ParserTable.escDelayMs = 10 ∧ Gen.ParserTable.chanCap = 2 ∧
+    Gen.ParserTable.escDelayMs = 10 ∧ Gen.ParserTable.chanCap = 2 ∧ Gen.ParserTable.runLoopRecognised = true ∧
     (⟨Gen.ParserTable.timerClearsIgnoreST, Gen.ParserTable.timerGuarded⟩ : Cfg) = Cfg.fixed := by decide
 
 /-- **No panic, invariant kept** along *every* run from the initial state — all schedules of
